@@ -62,6 +62,7 @@ type Result struct {
 	IncompleteEx []string
 	Decisions    int
 	Queries      int
+	Pruned       int
 	Merges       int
 	Steps        int64
 	Violations   []Violation
@@ -93,6 +94,7 @@ type Explorer struct {
 	rng   *rand.Rand
 	seen  int
 	stop  bool
+	logging bool
 }
 
 func NewExplorer(prog *ssa.Program, pkg *ssa.Package, fn *ssa.Function, cfg Config) *Explorer {
@@ -254,6 +256,15 @@ func (ex *Explorer) newInterp() (*Interp, error) {
 	if err != nil {
 		return nil, err
 	}
+	if p := os.Getenv("VERIF_SMT_LOG"); p != "" {
+		ex.mu.Lock()
+		if !ex.logging {
+			ex.logging = true
+			f, _ := os.Create(p)
+			sol.Log = f
+		}
+		ex.mu.Unlock()
+	}
 	in := &Interp{prog: ex.prog, tt: NewTermTable(), sol: sol, ex: ex,
 		globals: map[*ssa.Global]*Value{}, consts: map[*ssa.Const]Value{},
 		methods: map[types.Type]map[string]*ssa.Function{}, implCache: map[[2]types.Type]bool{},
@@ -277,6 +288,7 @@ func (in *Interp) resetPath(it WorkItem) {
 		in.model = Model{}
 	}
 	in.evc = evalCache{}
+	in.asserted = map[*Term]bool{}
 	in.inputs = nil
 	in.inputCnt = map[string]int{}
 	in.pcLen = 0
@@ -497,6 +509,7 @@ func (ex *Explorer) runPath(in *Interp, it WorkItem, reinit bool) {
 	ex.mu.Lock()
 	ex.res.Decisions += in.pathStats.Decisions
 	ex.res.Queries += in.pathStats.Queries
+	ex.res.Pruned += in.pathStats.Pruned
 	ex.res.Steps += int64(in.steps)
 	ex.mu.Unlock()
 	in.sol.Pop()
